@@ -86,6 +86,14 @@ namespace mfuse
             mfuse_EXPORTS const char* what() const noexcept override;
         };
 
+        class mfuse_PUBLIC TooManyParameters : public BaseSource
+        {
+        public:
+            using BaseSource::BaseSource;
+
+            mfuse_EXPORTS const char* what() const noexcept override;
+        };
+
         class mfuse_PUBLIC UnknownCommand : public BaseSource, public Messageable
         {
         public:
